@@ -129,6 +129,11 @@ NestCases ==
                                 VarDef(<<"p2">>, "int", <<>>), VarDef(<<"q2">>, "string", <<>>), VarDef(<<"r2">>, "bool", <<>>), Asg(<<"p2", "q2", "r2">>, <<CallE("mid", <<NatLit(1)>>)>>), PrintS(<<Var("p2"), Var("q2"), Var("r2")>>)>>),
    CaseOf("C02/nest/bare", <<FuncBare("tick", <<>>, <<PrintS(<<StrL("tick")>>)>>), FuncBare("seven", <<"int">>, <<ExprS(CallE("tick", <<>>)), RetS(<<NatLit(7)>>)>>),
                              ExprS(CallE("tick", <<>>)), PrintS(<<CallE("seven", <<>>), Bin("+", CallE("seven", <<>>), NatLit(1))>>)>>),
+   CaseOf("C02/nest/shadow-multi", <<Def(<<"total", "label">>, <<NatLit(100), StrL("top")>>), Func("pair", <<>>, <<"int", "string">>, <<RetS(<<NatLit(11), StrL("inner")>>)>>),
+                                     Func("work", <<>>, <<"int">>, <<Def(<<"total", "extra">>, <<NatLit(10), NatLit(1)>>), Asg1("total", Bin("+", Var("total"), Var("extra"))), RetS(<<Var("total")>>)>>),
+                                     Func("work2", <<>>, <<"string">>, <<Def(<<"total", "label", "fresh">>, <<CallE("work", <<>>), StrL("inner2"), NatLit(0)>>), Compound("label", "+", StrL("!")), Inc("total"), RetS(<<Bin("+", Var("label"), Itoa(Bin("+", Var("total"), Var("fresh"))))>>)>>),
+                                     Func("bump", <<>>, <<>>, <<Inc("total")>>),
+                                     PrintS(<<CallE("work", <<>>), Var("total")>>), PrintS(<<CallE("work2", <<>>), Var("label"), Var("total")>>), ExprS(CallE("bump", <<>>)), PrintS(<<Var("total"), Var("label")>>)>>),
    CaseOf("C02/nest/args", <<Func("add", <<Param("a", "int"), Param("b", "int")>>, <<"int">>, <<RetS(<<Bin("+", Var("a"), Var("b"))>>)>>),
                              Func("dbl", <<Param("a", "int")>>, <<"int">>, <<RetS(<<Bin("*", Var("a"), NatLit(2))>>)>>),
                              PrintS(<<CallE("add", <<CallE("dbl", <<NatLit(3)>>), CallE("dbl", <<CallE("add", <<NatLit(1), NatLit(1)>>)>>)>>)>>),
